@@ -74,10 +74,15 @@ func (c *Controller) hook(side int, id int32, step int, token *int32) {
 		return
 	}
 	t := c.tasks[id]
+	if t != nil && t.dead && step == kio.VerifStart {
+		t = nil // a new task re-using the id of a finished one (faulty code may do that): track it afresh
+	}
 	if t == nil {
 		t = &tstate{id: id, release: make(chan struct{}, 1), token: token}
+		if _, known := c.tasks[id]; !known {
+			c.order = append(c.order, id)
+		}
 		c.tasks[id] = t
-		c.order = append(c.order, id)
 		c.lastArr = time.Now()
 		if c.liveCount() == 1 {
 			c.arrived = 0 // first task of a new batch
